@@ -79,6 +79,7 @@ CLAIMS = {
          "for a ring opened on c, and that closure cannot be made: a = c, a and c already bonded, or the two written kinds irreconcilable (JoinDefect); build_rnum_error_is_real — an error Rnum(i) names the i-th ring-closure digit of the history, "
          "no later digit carries its number and that number has been written an odd number of times (an opening that is never answered); build_succeeds_iff — for every conformant history build returns a graph IFF no step meets a JoinDefect and every ring number "
          "is written an even number of times (invariants: errors are exactly the defects met; every placeholder is the record of an unanswered opening digit; parity of each number = open or not). "
+         "For the traversal's own events (C08's pairing clause): walk_joins_balanced — every ring number is written an even number of times and no closing digit meets a defect; walk_join_pairs_are_bonds — the two atoms a ring number is written on are bonded in the graph (Lemmas/JoinPairL.lean). "
          "Still decided on every run as well by an oracle that recomputes unmatched digits and problematic closures from the history without the builder.",
          "Lean 4 proof (builder invariant: resolved bonds form a well-formed simple graph, by induction over conformant histories) + differential correspondence of builder results", "4.10"),
  'C11': ("Theorems in Purr/Props/C11.lean, for EVERY adjacency list: validate g = none iff WellFormed g (independent definition in Purr/Spec/WellFormed.lean: targets exist, no self bond, no pair bonded twice, "
